@@ -18,3 +18,113 @@ pub open spec fn preimage_forkid(tx: Transaction, i: int, f: SigHash, subscript:
     + spec_hash_outputs(tx, f, i) + le32(tx.n_locktime) + le32((f as u8) as u32)
 }
 pub open spec fn same_contents(a: Transaction, b: Transaction) -> bool { a.version == b.version && a.inputs == b.inputs && a.outputs == b.outputs && a.n_locktime == b.n_locktime }
+
+// ---- legacy (pre-fork) sighash preimage, written from the original Bitcoin SignatureHash ----
+pub open spec fn null_out() -> Seq<u8> { le64(0xffffffffffffffffu64) + varint(0) }
+pub open spec fn nulls(k: nat) -> Seq<u8> decreases k { if k == 0 { Seq::<u8>::empty() } else { nulls((k - 1) as nat) + null_out() } }
+// one input of the rewritten transaction: the signed input carries the subscript, all others an empty script;
+// under NONE / SINGLE the other inputs' sequences are zeroed
+pub open spec fn legacy_in(t: TxIn, signed: bool, sub: Seq<u8>, zero_others: bool) -> Seq<u8> {
+    outpoint(t) + (if signed { varint(sub.len() as u64) + sub } else { varint(0) }) + le32(if zero_others && !signed { 0u32 } else { t.sequence })
+}
+pub open spec fn legacy_ins(ins: Seq<TxIn>, i: int, sub: Seq<u8>, zero_others: bool) -> Seq<u8> decreases ins.len() {
+    if ins.len() == 0 { Seq::<u8>::empty() } else { legacy_ins(ins.drop_last(), i, sub, zero_others) + legacy_in(ins.last(), ins.len() - 1 == i, sub, zero_others) }
+}
+pub open spec fn preimage_legacy(tx: Transaction, i: int, f: SigHash, sub: Seq<u8>) -> Seq<u8> {
+    let z = base(f) == 2 || base(f) == 3;
+    le32(tx.version)
+    + (if acp(f) { varint(1) + legacy_in(tx.inputs@[i], true, sub, false) } else { varint(tx.inputs@.len() as u64) + legacy_ins(tx.inputs@, i, sub, z) })
+    + (if base(f) == 2 { varint(0) } else if base(f) == 3 { varint((i + 1) as u64) + nulls(i as nat) + ser_out(tx.outputs@[i]) } else { varint(tx.outputs@.len() as u64) + cat_outputs(tx.outputs@) })
+    + le32(tx.n_locktime) + le32((f as u8) as u32)
+}
+// relation between the scratch copy's inputs and the original inputs
+pub open spec fn in_rel(m: TxIn, o: TxIn, signed: bool, sub: Seq<u8>, zero_others: bool) -> bool {
+    m.prev_tx_id@ == o.prev_tx_id@ && m.vout == o.vout
+    && ser_script(m.unlocking_script) == (if signed { sub } else { Seq::<u8>::empty() })
+    && m.sequence == (if zero_others && !signed { 0u32 } else { o.sequence })
+}
+pub proof fn lemma_in_rel(m: TxIn, o: TxIn, signed: bool, sub: Seq<u8>, z: bool)
+    requires in_rel(m, o, signed, sub, z)
+    ensures ser_in(m) == legacy_in(o, signed, sub, z)
+{ }
+pub proof fn lemma_ins_rel(m: Seq<TxIn>, o: Seq<TxIn>, i: int, sub: Seq<u8>, z: bool)
+    requires m.len() == o.len(), forall|j: int| 0 <= j < m.len() ==> in_rel(#[trigger] m[j], o[j], j == i, sub, z)
+    ensures cat_ins(m) == legacy_ins(o, i, sub, z)
+    decreases m.len()
+{
+    if m.len() > 0 {
+        lemma_ins_rel(m.drop_last(), o.drop_last(), i, sub, z);
+        lemma_in_rel(m.last(), o.last(), m.len() - 1 == i, sub, z);
+    }
+}
+pub open spec fn is_null_out(t: TxOut) -> bool { t.value == 0xffffffffffffffffu64 && ser_script(t.script_pub_key) == Seq::<u8>::empty() }
+pub proof fn lemma_nulls(m: Seq<TxOut>)
+    requires forall|j: int| 0 <= j < m.len() ==> is_null_out(#[trigger] m[j])
+    ensures cat_outputs(m) == nulls(m.len())
+    decreases m.len()
+{
+    if m.len() > 0 { lemma_nulls(m.drop_last()); }
+}
+// the state of the scratch copy just before serialisation, relative to the original transaction o
+pub open spec fn legacy_scratch_ok(tx: Transaction, o: Transaction, n: int, f: SigHash, sub: Seq<u8>) -> bool {
+    let z = base(f) == 2 || base(f) == 3;
+    &&& 0 <= n < o.inputs@.len()
+    &&& tx.version == o.version && tx.n_locktime == o.n_locktime
+    &&& (acp(f) ==> tx.inputs@.len() == 1 && in_rel(tx.inputs@[0], o.inputs@[n], true, sub, z))
+    &&& (!acp(f) ==> tx.inputs@.len() == o.inputs@.len() && forall|j: int| 0 <= j < tx.inputs@.len() ==> in_rel(#[trigger] tx.inputs@[j], o.inputs@[j], j == n, sub, z))
+    &&& (base(f) == 1 ==> tx.outputs@ == o.outputs@)
+    &&& (base(f) == 2 ==> tx.outputs@.len() == 0)
+    &&& (base(f) == 3 ==> n < o.outputs@.len() && tx.outputs@.len() == n + 1 && tx.outputs@[n] == o.outputs@[n] && forall|j: int| 0 <= j < n ==> is_null_out(#[trigger] tx.outputs@[j]))
+}
+pub open spec fn legacy_ins_part(o: Transaction, n: int, f: SigHash, sub: Seq<u8>) -> Seq<u8> {
+    let z = base(f) == 2 || base(f) == 3;
+    if acp(f) { varint(1) + legacy_in(o.inputs@[n], true, sub, false) } else { varint(o.inputs@.len() as u64) + legacy_ins(o.inputs@, n, sub, z) }
+}
+pub open spec fn legacy_outs_part(o: Transaction, n: int, f: SigHash) -> Seq<u8> {
+    if base(f) == 2 { varint(0) } else if base(f) == 3 { varint((n + 1) as u64) + nulls(n as nat) + ser_out(o.outputs@[n]) } else { varint(o.outputs@.len() as u64) + cat_outputs(o.outputs@) }
+}
+pub proof fn lemma_legacy_ins_part(tx: Transaction, o: Transaction, n: int, f: SigHash, sub: Seq<u8>)
+    requires legacy6(f), legacy_scratch_ok(tx, o, n, f, sub)
+    ensures varint(tx.inputs@.len() as u64) + cat_ins(tx.inputs@) == legacy_ins_part(o, n, f, sub)
+{
+    let z = base(f) == 2 || base(f) == 3;
+    if acp(f) {
+        lemma_in_rel(tx.inputs@[0], o.inputs@[n], true, sub, z);
+        assert(tx.inputs@.drop_last() == Seq::<TxIn>::empty());
+        assert(tx.inputs@.last() == tx.inputs@[0]);
+        reveal_with_fuel(cat_ins, 2);
+        assert(cat_ins(tx.inputs@) == legacy_in(o.inputs@[n], true, sub, false));
+    } else {
+        lemma_ins_rel(tx.inputs@, o.inputs@, n, sub, z);
+    }
+}
+pub proof fn lemma_legacy_outs_part(tx: Transaction, o: Transaction, n: int, f: SigHash, sub: Seq<u8>)
+    requires legacy6(f), legacy_scratch_ok(tx, o, n, f, sub)
+    ensures varint(tx.outputs@.len() as u64) + cat_outputs(tx.outputs@) == legacy_outs_part(o, n, f)
+{
+    if base(f) == 3 {
+        lemma_nulls(tx.outputs@.drop_last());
+        assert(tx.outputs@.last() == o.outputs@[n]);
+        assert(cat_outputs(tx.outputs@) == nulls(n as nat) + ser_out(o.outputs@[n]));
+        assert(varint((n + 1) as u64) + (nulls(n as nat) + ser_out(o.outputs@[n])) =~= varint((n + 1) as u64) + nulls(n as nat) + ser_out(o.outputs@[n]));
+    } else if base(f) == 2 {
+        assert(cat_outputs(tx.outputs@) == Seq::<u8>::empty());
+        assert(varint(0) + Seq::<u8>::empty() =~= varint(0));
+    }
+}
+pub proof fn lemma_legacy_final(tx: Transaction, o: Transaction, n: int, f: SigHash, sub: Seq<u8>)
+    requires legacy6(f), legacy_scratch_ok(tx, o, n, f, sub)
+    ensures ser_tx(tx) + le32((f as u8) as u32) == preimage_legacy(o, n, f, sub)
+{
+    lemma_legacy_ins_part(tx, o, n, f, sub);
+    lemma_legacy_outs_part(tx, o, n, f, sub);
+    let a = le32(tx.version);
+    let b = varint(tx.inputs@.len() as u64);
+    let c = cat_ins(tx.inputs@);
+    let d = varint(tx.outputs@.len() as u64);
+    let e = cat_outputs(tx.outputs@);
+    let g = le32(tx.n_locktime);
+    let h = le32((f as u8) as u32);
+    assert(preimage_legacy(o, n, f, sub) == a + legacy_ins_part(o, n, f, sub) + legacy_outs_part(o, n, f) + g + h);
+    assert(a + b + c + d + e + g + h =~= a + (b + c) + (d + e) + g + h);
+}
